@@ -41,7 +41,9 @@ TSpher == /\ IsEvent("spher")
              /\ t.ex /\ t.xyz = <<t.r * C(t.az) * S(t.el), t.r * S(t.az) * S(t.el), t.r * C(t.el) * Dn(t.az)>>
              /\ t.backr = t.r /\ t.backel = CS(t.el) /\ (S(t.el) # 0 => t.backaz = CS(t.az))
 TGeneric == IsEvent("generic") /\ Tr[l].inRange /\ ResidualsOK(Tr[l].res, Tr[l].float = 1)
-TraceNext == TGeneric \/ TReset \/ TEuler \/ TSmart \/ TNorm \/ TNormLat \/ TRot2 \/ TPolar \/ TSpher
+\* derivative matrices at generic angles: residual against the closed-form derivatives (exact) and against the as-coded variant
+TSmartGen == IsEvent("smartgen") /\ (Tr[l].resExact <= 1000 \/ (Known /\ Tr[l].resCoded <= 1000))
+TraceNext == TSmartGen \/ TGeneric \/ TReset \/ TEuler \/ TSmart \/ TNorm \/ TNormLat \/ TRot2 \/ TPolar \/ TSpher
 TraceSpec == TraceInit /\ [][TraceNext]_l
 TraceAccepted == TLCGet("stats").diameter - 1 = Len(Tr)
 =============================================================================
